@@ -1098,3 +1098,175 @@ def gen_geo_glue():
     allf = facts("geo") + facts("tgeo") + facts("rot")
     g.raw("def facts : List (String × String) := [%s]\n" % ", ".join('("%s", "%s")' % f for f in allf))
     return [g.write()]
+
+
+def gen_shapedna():
+    """`compute_shapedna` and `normalize_ev` (lapy/shapedna.py) as protocols: the geometry classes and the Solver are recorders.
+    Emitted: the dictionary fields, how the Solver is built and used, what each normalisation method multiplies by (the real power is the
+    binder `pw`), on which object `orient_` is called."""
+    import lapy.shapedna as SD
+    tr = Tracer(sample={"ar": 2.5, "vol": 1.7})
+    NpProxy.tracer = tr
+    ev = sym_array(tr, "l", (3,))
+    names = {"l%d" % j: "l%d" % j for j in range(3)}
+    names.update({"ar": "ar", "vol": "vol"})
+    log = []
+
+    def mk_geom(clsname):
+        class Surf:
+            def __init__(self, v=None, t=None, origin="boundary_tria()"):
+                self.v, self.t = v, t
+                self.origin = origin
+
+            def orient_(self):
+                log.append("orient_ on %s" % self.origin)
+
+            def volume(self):
+                log.append("volume of %s" % self.origin)
+                return tr.var("vol")
+
+        class G:
+            def __init__(self, v, t):
+                self.v, self.t = v, t
+                self.origin = "a copy built from (v, t)" if len(log) and log[-1] == "__copy__" else "the argument"
+
+            def area(self):
+                log.append("area of %s" % self.origin)
+                return tr.var("ar")
+
+            def orient_(self):
+                log.append("orient_ on %s" % self.origin)
+
+            def volume(self):
+                log.append("volume of %s" % self.origin)
+                return tr.var("vol")
+
+            def boundary_tria(self):
+                log.append("boundary_tria of %s" % self.origin)
+                return Surf()
+        G.__name__ = clsname
+        orig_init = G.__init__
+
+        def init(self, v, t):
+            log.append("__copy__") if getattr(init, "armed", False) else None
+            orig_init(self, v, t)
+            if getattr(init, "armed", False):
+                log.pop(-1) if log and log[-1] == "__copy__" else None
+                self.origin = "a copy built from (v, t)"
+        G.__init__ = init
+        g = G(np.zeros((5, 3)), np.zeros((7, 3 if clsname == "TriaMesh" else 4), dtype=int))
+        init.armed = True
+        return g
+
+    results = {}
+    facts = []
+    for clsname in ("TriaMesh", "TetMesh"):
+        for meth in ("surface", "volume", "geometry"):
+            if clsname == "TetMesh" and meth == "surface":
+                continue
+            del log[:]
+            g = mk_geom(clsname)
+            res = SD.normalize_ev(g, ev, method=meth)
+            results[(clsname, meth)] = res
+            facts.append(("normalize_ev %s %s" % (clsname, meth), " > ".join(log)))
+    # compute_shapedna
+    rec = {}
+    vals, vecs = object(), object()
+
+    class StubSolver:
+        def __init__(self, geometry, **kw):
+            rec["geometry"] = geometry
+            rec["kw"] = dict(kw)
+
+        def eigs(self, **kw):
+            rec["eigs_kw"] = dict(kw)
+            return vals, vecs
+    saved = SD.Solver
+    SD.Solver = StubSolver
+    try:
+        for clsname in ("TriaMesh", "TetMesh"):
+            g = mk_geom(clsname)
+            with core_quiet():
+                d = SD.compute_shapedna(g, k=6, lump=True, aniso=(1.0, 2.0), aniso_smooth=4)
+            ints = ", ".join("%s=%s" % (kk, d[kk]) for kk in ("Refine", "Degree", "Dimension", "Elements", "DoF", "NumEW"))
+            facts.append(("compute_shapedna %s fields" % clsname, ints))
+            facts.append(("compute_shapedna %s keys" % clsname, " ".join(sorted(d))))
+            facts.append(("compute_shapedna %s solver" % clsname, "Solver(geom%s) eigs(%s) outputs passed on: %s" % (
+                "".join(", %s=%s" % (kk, rec["kw"][kk]) for kk in sorted(rec["kw"])) if rec["geometry"] is g else " OTHER",
+                ", ".join("%s=%s" % kv for kv in sorted(rec["eigs_kw"].items())), d["Eigenvalues"] is vals and d["Eigenvectors"] is vecs)))
+    finally:
+        SD.Solver = saved
+        NpProxy.tracer = None
+    g = GenModule("ShapeDNA", "lapy/shapedna.py::normalize_ev / compute_shapedna with recorded geometry classes and Solver",
+                  "(pw : ℝ → ℝ → ℝ) (l0 l1 l2 ar vol : ℝ)")
+    g.set_args("pw l0 l1 l2 ar vol")
+    g.pc(tr, names)
+    for (clsname, meth), res in results.items():
+        g.vec("norm%s%s" % (clsname[:3], meth.capitalize()), tr, flat_syms(tr, res), names)
+    g.raw("def facts : List (String × String) := [%s]\n" % ", ".join('("%s", "%s")' % f for f in facts))
+    return [g.write()]
+
+
+def gen_dispatch():
+    """the generic entry points of lapy/diffgeo.py (`compute_gradient`, `compute_divergence`, `compute_rotated_f`) and the geometry dispatch of
+    `Solver.__init__`: which kernel receives which arguments for objects whose type is NAMED TriaMesh / TetMesh / anything else"""
+    import lapy.diffgeo as D
+    import lapy.solver as S
+    facts = []
+    names_fn = ("tria_compute_gradient", "tet_compute_gradient", "tria_compute_divergence", "tet_compute_divergence", "tria_compute_rotated_f")
+    saved = {k: getattr(D, k) for k in names_fn}
+    calls = []
+
+    def rec(nm):
+        def f(geom, arg):
+            calls.append((nm, geom, arg))
+            return ("result of", nm)
+        return f
+    geos = {}
+    for cn in ("TriaMesh", "TetMesh", "VoxelGrid"):
+        geos[cn] = type(cn, (), {})()
+    arg = object()
+    try:
+        for k in names_fn:
+            setattr(D, k, rec(k))
+        for entry in ("compute_gradient", "compute_divergence", "compute_rotated_f"):
+            for cn, g in geos.items():
+                del calls[:]
+                try:
+                    r = getattr(D, entry)(g, arg)
+                    ok = len(calls) == 1 and calls[0][1] is g and calls[0][2] is arg and r == ("result of", calls[0][0])
+                    facts.append(("%s(%s)" % (entry, cn), ("-> %s(geom, arg), result passed on" % calls[0][0]) if ok else "UNEXPECTED"))
+                except ValueError:
+                    facts.append(("%s(%s)" % (entry, cn), "ValueError" + (" after a kernel call" if calls else "")))
+    finally:
+        for k, v in saved.items():
+            setattr(D, k, v)
+    # Solver.__init__ dispatch
+    saved_s = {k: S.Solver.__dict__[k] for k in ("_fem_tria", "_fem_tria_aniso", "_fem_tetra")}
+    try:
+        def mk(nm):
+            def f(*a, **k):
+                calls.append((nm, a, k))
+                return ("A of " + nm, "B of " + nm)
+            return staticmethod(f)
+        for k in saved_s:
+            setattr(S.Solver, k, mk(k))
+        for cn, g in geos.items():
+            for lump in (False, True):
+                del calls[:]
+                try:
+                    with core_quiet():
+                        s = S.Solver(g, lump=lump)
+                    ok = len(calls) == 1 and calls[0][1][0] is g and (calls[0][1][1] is lump if len(calls[0][1]) > 1 else calls[0][2].get("lump") is lump)
+                    facts.append(("Solver(%s, lump=%s)" % (cn, lump), ("-> %s(geom, lump), stiffness / mass = its outputs: %s" % (
+                        calls[0][0], s.stiffness == "A of " + calls[0][0] and s.mass == "B of " + calls[0][0])) if ok else "UNEXPECTED"))
+                except ValueError:
+                    facts.append(("Solver(%s, lump=%s)" % (cn, lump), "ValueError" + (" after a kernel call" if calls else "")))
+    finally:
+        for k, v in saved_s.items():
+            setattr(S.Solver, k, v)
+    lines = ["/-  GENERATED by vcheck/extract.py from lapy/diffgeo.py (generic entry points) and lapy/solver.py::Solver.__init__ -- do not edit. -/",
+             "namespace LapyVerif.Gen.Dispatch",
+             "def facts : List (String × String) := [%s]" % ", ".join('("%s", "%s")' % f for f in facts),
+             "end LapyVerif.Gen.Dispatch", ""]
+    return [write_if_changed(os.path.join(GEN_DIR, "Dispatch.lean"), "\n".join(lines))]
